@@ -136,8 +136,20 @@ a batch, every eligible result the pipeline returned is handed to `Add`; nothing
 def observerProcess (ttl now delay : Nat) (s : Store) (rs : List CheckResult) : Store :=
   postProcess ttl (now + delay) s rs
 
-/-- `RemoveFromStagingHook.RunHook`: `Remove(workIDs of outcome.AgreedPerformables...)` -/
+/-- `RemoveFromStagingHook.RunHook`: `Remove(workIDs of outcome.AgreedPerformables...)` — the work id of EVERY
+agreed performable.  A unit of work is not an upkeep: a log-trigger upkeep has one work id per log, and one outcome
+may agree on several of them (its validation only forbids equal work ids). -/
 def runHook (s : Store) (agreed : List CheckResult) : Store := remove s (agreed.map (·.workID))
+
+/-- NOT the code as it is (Props/C10 `runHookPerUpkeep_keeps_agreed`): the agreed work ids filed under their
+UPKEEP id first — `agreed[result.UpkeepID] = result.WorkID`, a later result of the same upkeep overwriting an
+earlier one — … -/
+def agreedPerUpkeep (agreed : List CheckResult) : List (String × String) :=
+  agreed.foldl (fun m r => m.filter (fun p => decide (p.1 ≠ r.upkeepID)) ++ [(r.upkeepID, r.workID)]) []
+
+/-- … and only what that table still holds removed -/
+def runHookPerUpkeep (s : Store) (agreed : List CheckResult) : Store :=
+  remove s ((agreedPerUpkeep agreed).map (·.2))
 
 /-! ### histories -/
 
